@@ -109,6 +109,18 @@ def run_once(ctx):
         res.findings.append(Finding(m["signature"], "%s: got %s expected %s" % (m["input"], m["got"], m["expected"]),
                                     {"engine": "pure"}))
     res.extra["pure_hash_verifications"] = pr["evaluations"]
+    # predefined users govern registration (password of the user, else the server password; mask): the gate
+    # explorer's login sequences under the two configurations with [[users]]
+    from .. import gate
+    for cfgname in ("users", "srvpw+users"):
+        g = gate.gate_worker((binary, hooks, cfgname, ctx.seed, True, 0, 6))
+        res.evaluations += g["cases"]
+        res.distinct.add("predefined-users:" + cfgname)
+        for sig, detail in g["findings"]:
+            res.findings.append(Finding("boot:predefined-users:" + sig, detail, {"engine": "gate"}))
+        if g["inconclusive"]:
+            res.inconclusive += 1
+            res.inconclusive_notes.append(g["inconclusive"])
     # (f) command line overrides
     for label, ok in boot.cli_overrides(binary, hooks):
         res.evaluations += 1
